@@ -1,8 +1,9 @@
 """C12 - every transformation returns a well-formed graph that serialises faithfully.
 
 Explicit-state search over transformation programs: initial states are the decoding of
-every well-formed tree of a family, its marker-less twin and three edited variants (one
-marker list deleted, explicit non-default top, one attribute appended); operations are
+every well-formed tree of a family, its marker-less twin and four edited variants (one
+marker list deleted, explicit non-default top, implicit top with the relations listed first,
+one attribute appended); operations are
 reify_edges, dereify_edges, reify_attributes, indicate_branches (at most once per program);
 all programs up to a length bound, states de-duplicated on (triples, markers, top).
 Checked after every step: no exception; same top; every source has a node; encodes and
@@ -108,6 +109,9 @@ def check(case, ctx):
         inits.append(('one marker list deleted', Graph(triples, top=g0.top, epidata=e2)))
     if len(variables) > 1:
         inits.append(('explicit other top', Graph(triples, top=variables[-1], epidata=g0.epidata)))
+    reordered = [tr for tr in triples if tr[1] != ':instance'] + [tr for tr in triples if tr[1] == ':instance']
+    if reordered != triples:
+        inits.append(('implicit top, relations first', Graph(reordered)))
     extra = (variables[0], ':polarity', '-')
     if extra not in triples:
         inits.append(('attribute appended', Graph(triples + [extra], top=g0.top, epidata=g0.epidata)))
